@@ -278,6 +278,12 @@ fn lookups(rep: &mut Report, shard: u64, nshards: u64) {
             let replay = json!({"cmd": "c16", "class": cname, "prop": pn});
             let dom = WeakDom::new(InstanceBuilder::new("DataModel").with_child(InstanceBuilder::new(cname).with_property(pn, v)));
             let roots = dom.root().children().to_vec();
+            // what the database itself says about this name (independent walk): does it travel, and under which name does it come back
+            let travels = dbwalk::travel(db, cname, pn).filter(|t| {
+                let f = if true { Fmt::Binary } else { Fmt::Xml };
+                let _ = f;
+                type_ok(Fmt::Binary, ty) && type_ok(Fmt::Xml, ty) && type_ok(Fmt::Binary, t.wire_ty) && type_ok(Fmt::Xml, t.wire_ty) && t.back_name != "Name"
+            });
             for fmt in ["bin", "xml"] {
                 let res = catch(|| {
                     let bytes = if fmt == "bin" {
@@ -287,14 +293,36 @@ fn lookups(rep: &mut Report, shard: u64, nshards: u64) {
                     };
                     match bytes {
                         Ok(b) => {
-                            let r = if fmt == "bin" { rbx_binary::from_reader(&b[..]).map(|_| ()).map_err(|e| e.to_string()) } else { rbx_xml::from_reader_default(&b[..]).map(|_| ()).map_err(|e| e.to_string()) };
-                            (true, r)
+                            let r = if fmt == "bin" { rbx_binary::from_reader(&b[..]).map_err(|e| e.to_string()) } else { rbx_xml::from_reader_default(&b[..]).map_err(|e| e.to_string()) };
+                            let r = r.map(|d| {
+                                // the codecs' own lookup must agree with the database: a travelling property comes back under its name
+                                if let Some(t) = &travels {
+                                    let first = d.root().children().first().and_then(|c| d.get_by_ref(*c));
+                                    if let Some(inst) = first {
+                                        if !inst.properties.contains_key(&rbx_dom_weak::ustr(&t.back_name)) {
+                                            return Err(t.back_name.clone());
+                                        }
+                                    }
+                                }
+                                Ok(())
+                            });
+                            match r {
+                                Ok(Ok(())) => (true, Ok(())),
+                                Ok(Err(missing)) => (true, Err(format!("LOST:{}", missing))),
+                                Err(e) => (true, Err(e)),
+                            }
                         }
                         Err(e) => (false, Err(e)),
                     }
                 });
                 match res {
                     Err(p) => rep.violation(&format!("C16:lookup:{}:{}", fmt, panic_sig(&p)), &format!("{}.{} ({}): {}", cname, pn, fmt, p.msg), replay.clone(), J::Null),
+                    Ok((true, Err(e))) if e.starts_with("LOST:") => rep.violation(
+                        &format!("C16:lookup-disagrees-with-database:{}", fmt),
+                        &format!("{}.{}: the database says this property serializes and comes back as {}, but the {} codec's lookup drops it", cname, pn, &e[5..], fmt),
+                        replay.clone(),
+                        J::Null,
+                    ),
                     Ok((true, Err(e))) => {
                         let ec: String = e.split(':').next().unwrap_or("").chars().take(40).filter(|c| !c.is_ascii_digit()).collect();
                         rep.violation(&format!("C16:lookup-own-output-rejected:{}:{}", fmt, ec), &format!("{}.{}: the {} reader rejects the writer's output: {}", cname, pn, fmt, e), replay.clone(), J::Null)
